@@ -14,7 +14,8 @@ NUMBER_LIKE = ["+5", "-0", "1e5", ".5", "5.", "inf", "NaN", "Infinity", "2147483
                "99999999999999999999", "-99999999999999999999", "0.1e1", "1f", "1.0f32", "1i32", "٣", "1²", "1.", "0e0", "-0.0", "+0.0"]
 VEC_GOOD = ["INT[1]", "INT[1,2,3]", "INT[-5,+7,0]", "INT[2147483647,-2147483648]", "BOOL[1,0]", "BOOL[true,false]", "BOOL[true,0]", "BOOL[1]",
             "FLOAT[1.5]", "FLOAT[1,2.5,-3e2]", "FLOAT[inf,-inf,nan]", "FLOAT[.5,5.]", "INT[1,2)", "INT[1,2x", "INT[1,23", "FLOAT[1.55", "BOOL[1,00"]
-VEC_BAD = ["INT[", "FLOAT[", "BOOL[", "INT[]", "FLOAT[]", "BOOL[]", "INT[1,,2]", "INT[,1]", "INT[1,]", "INT[1,2", "INT[1.0]", "INT[2147483648]",
+VEC_BAD = ["BOOL[01]", "BOOL[+1]", "BOOL[00]", "BOOL[001,1]", "BOOL[1,+0]", "BOOL[-0]", "BOOL[1.0]", "BOOL[0x1]", "INT[+1]", "INT[01,-02]", "INT[0x10]", "INT[1e2]", "INT[1_0]", "FLOAT[+1]", "FLOAT[01]", "FLOAT[1e2,1E-2]",
+           "FLOAT[INF]", "FLOAT[NaN,Infinity]", "FLOAT[0x1p3]", "FLOAT[1_0]", "INT[", "FLOAT[", "BOOL[", "INT[]", "FLOAT[]", "BOOL[]", "INT[1,,2]", "INT[,1]", "INT[1,]", "INT[1,2", "INT[1.0]", "INT[2147483648]",
            "INT[a]", "INT[1, 2]", "BOOL[2]", "BOOL[TRUE]", "BOOL[true,FALSE]", "BOOL[1,", "FLOAT[x]", "FLOAT[1,,2]", "FLOAT[1.5", "FLOAT[NANu]",
            "INT[1,2é", "INT[1,2]é", "INT[é", "FLOAT[1€", "BOOL[1\U0001F600", "INT[é1]", "INT[1é,2]", "BOOL[あ]",
            "INT]", "int[1]", "INT [1]", "INTT[1]", "XINT[1]", "INT[[1]]", "INT[1]]", "INT[INT[1]]", "FLOAT[1.5]]", "BOOL[[", "INT[(]", "INT[)"]
